@@ -33,6 +33,10 @@ type genLayout struct {
 	stpp       bool   // stpp text track at timescale 1000 following the video grid (needs ms-integral video durations)
 	thumbs     bool   // thumbnail track (needs uniform video durations)
 	textShort  int    // number of trailing video segments without a text segment (an asset that must be left out)
+	vodNrBase  int    // the VoD files are numbered from 1+vodNrBase (SegmentTemplate@startNumber of the VoD MPD): -1 = from 0
+	audio2     string // a second audio AdaptationSet A2 with this codec ("aac" | "ac3"), same segment grid in its own frames
+	audio2Segs []int  // frames per segment of A2
+	audioID    string // id of the first audio representation ("" = A1); "AV1" has the video id V1 as a suffix
 }
 
 // curProp is the property whose generator is running ("" in the exec / child modes)
@@ -53,6 +57,13 @@ var genLayouts = []genLayout{
 	// the first segment file ends before the second starts (a packager's wrong last-sample duration): the loaded table
 	// must be contiguous all the same
 	{name: "gen_gap", videoT: 90000, frameDur: 3600, videoSegs: []int{180000, 180000, 180000}, audioCodec: "aac", audioSegs: []int{94, 94, 94}, shortLast: 600, onlyFor: "C15"},
+	// VoD files numbered from 0 and from 7 (SegmentTemplate@startNumber of the VoD MPD other than 1)
+	{name: "gen_nr0", videoT: 90000, frameDur: 3600, videoSegs: []int{180000, 180000, 180000}, audioCodec: "aac", audioSegs: []int{94, 94, 94}, thumbs: true, stpp: true, vodNrBase: -1, onlyFor: "C01 C02 C04 C15"},
+	{name: "gen_nr7", videoT: 90000, frameDur: 3600, videoSegs: []int{180000, 360000, 180000}, audioCodec: "aac", audioSegs: []int{94, 188, 93}, vodNrBase: 6, onlyFor: "C01 C02 C04 C15"},
+	// two audio AdaptationSets with different codecs, frame durations (1024 / 1536) and segment grids
+	{name: "gen_2aud", videoT: 90000, frameDur: 3600, videoSegs: []int{180000, 180000, 180000, 180000}, audioCodec: "aac", audioSegs: []int{94, 94, 94, 93}, audio2: "ac3", audio2Segs: []int{63, 62, 63, 62}, onlyFor: "C02 C03 C04"},
+	// a representation id that ends with another representation's id (AV1 / V1)
+	{name: "gen_sfx", videoT: 90000, frameDur: 3600, videoSegs: []int{180000, 180000, 180000}, audioCodec: "aac", audioSegs: []int{94, 94, 94}, audioID: "AV1", onlyFor: "C01 C04 C07"},
 	{name: "gen_short", videoT: 15360, frameDur: 512, videoSegs: []int{15360, 15360, 15360}, audioCodec: "aac", audioSegs: []int{47, 47, 46}, stpp: true, stppT: 90000},
 }
 
@@ -143,9 +154,14 @@ func msToTs(ms int) string {
 // genAsset writes one synthetic asset under root.
 func genAsset(root string, L genLayout) error {
 	dir := filepath.Join(root, L.name)
-	for _, d := range []string{"V1", "V2", "A1", "T1", "thumbs"} {
+	aID := "A1"
+	if L.audioID != "" {
+		aID = L.audioID
+	}
+	for _, d := range []string{"V1", "V2", aID, "A2", "T1", "thumbs"} {
 		_ = os.MkdirAll(filepath.Join(dir, d), 0o755)
 	}
+	nb := L.vodNrBase
 	vInit, vTrack, err := retimedInit("testpic_2s/V300/init.mp4", L.videoT)
 	if err != nil {
 		return err
@@ -173,7 +189,7 @@ func genAsset(root string, L genLayout) error {
 		if i == 0 && L.shortLast > 0 && len(samples) > 0 {
 			samples[len(samples)-1].Dur -= uint32(L.shortLast)
 		}
-		name := fmt.Sprintf("V1/%d.m4s", i+1)
+		name := fmt.Sprintf("V1/%d.m4s", i+1+nb)
 		if L.timeURI {
 			name = fmt.Sprintf("V1/t%d.m4s", t)
 		}
@@ -207,17 +223,28 @@ func genAsset(root string, L genLayout) error {
 <Representation id="V1" codecs="avc1.64001e" bandwidth="300000" width="640" height="360"/></AdaptationSet>`, L.videoT, timeline.String())
 	} else {
 		fmt.Fprintf(&asets, `<AdaptationSet contentType="video" mimeType="video/mp4" segmentAlignment="true" startWithSAP="1">
-<SegmentTemplate startNumber="1" timescale="%d" duration="%d" initialization="$RepresentationID$/init.mp4" media="$RepresentationID$/$Number$.m4s"/>
-<Representation id="V1" codecs="avc1.64001e" bandwidth="300000" width="640" height="360"/></AdaptationSet>`, L.videoT, L.videoSegs[0])
+<SegmentTemplate startNumber="%d" timescale="%d" duration="%d" initialization="$RepresentationID$/init.mp4" media="$RepresentationID$/$Number$.m4s"/>
+<Representation id="V1" codecs="avc1.64001e" bandwidth="300000" width="640" height="360"/></AdaptationSet>`, 1+nb, L.videoT, L.videoSegs[0])
 	}
 	if L.merged2 {
 		fmt.Fprintf(&asets, `<AdaptationSet contentType="video" mimeType="video/mp4" segmentAlignment="true" startWithSAP="1">
 <SegmentTemplate startNumber="1" timescale="%d" duration="%d" initialization="$RepresentationID$/init.mp4" media="$RepresentationID$/$Number$.m4s"/>
 <Representation id="V2" codecs="avc1.64001e" bandwidth="600000" width="640" height="360"/></AdaptationSet>`, L.videoT, 2*L.videoSegs[0])
 	}
+	type audSpec struct {
+		id, codec string
+		segs      []int
+	}
+	var auds []audSpec
 	if L.audioCodec != "" {
+		auds = append(auds, audSpec{aID, L.audioCodec, L.audioSegs})
+	}
+	if L.audio2 != "" {
+		auds = append(auds, audSpec{"A2", L.audio2, L.audio2Segs})
+	}
+	for ax, au := range auds {
 		initRel, frame, codec := "testpic_2s/A48/init.mp4", 1024, "mp4a.40.2"
-		if L.audioCodec == "ac3" {
+		if au.codec == "ac3" {
 			initRel, frame, codec = "bbb_hevc_ac3_8s/audio_init.mp4", 1536, "ac-3"
 		}
 		audioT := L.audioT
@@ -228,19 +255,19 @@ func genAsset(root string, L genLayout) error {
 		if err != nil {
 			return err
 		}
-		if err := os.WriteFile(filepath.Join(dir, "A1/init.mp4"), aInit, 0o644); err != nil {
+		if err := os.WriteFile(filepath.Join(dir, au.id+"/init.mp4"), aInit, 0o644); err != nil {
 			return err
 		}
 		at := uint64(0)
 		fr := 0
-		for i, n := range L.audioSegs {
+		for i, n := range au.segs {
 			var samples []mp4.FullSample
 			for k := 0; k < n; k++ {
 				data := []byte(fmt.Sprintf("%s-a-frame-%06d", L.name, fr))
 				samples = append(samples, mp4.FullSample{Sample: mp4.Sample{Flags: mp4.SyncSampleFlags, Dur: uint32(frame), Size: uint32(len(data))}, Data: data})
 				fr++
 			}
-			if err := writeSeg(filepath.Join(dir, fmt.Sprintf("A1/%d.m4s", i+1)), uint32(i+1), aTrack, at, samples); err != nil {
+			if err := writeSeg(filepath.Join(dir, fmt.Sprintf("%s/%d.m4s", au.id, i+1+nb)), uint32(i+1), aTrack, at, samples); err != nil {
 				return err
 			}
 			at += uint64(n * frame)
@@ -251,9 +278,13 @@ func genAsset(root string, L genLayout) error {
 			// (a $Number$ template's timescale need not be the media timescale)
 			mpdT, mpdDur = L.videoT, L.videoSegs[0]
 		}
-		fmt.Fprintf(&asets, `<AdaptationSet contentType="audio" mimeType="audio/mp4" lang="en" segmentAlignment="true" startWithSAP="1">
-<SegmentTemplate startNumber="1" timescale="%d" duration="%d" initialization="$RepresentationID$/init.mp4" media="$RepresentationID$/$Number$.m4s"/>
-<Representation id="A1" codecs="%s" bandwidth="48000" audioSamplingRate="%d"/></AdaptationSet>`, mpdT, mpdDur, codec, audioT)
+		lang := "en"
+		if ax == 1 {
+			lang = "sv"
+		}
+		fmt.Fprintf(&asets, `<AdaptationSet contentType="audio" mimeType="audio/mp4" lang="%s" segmentAlignment="true" startWithSAP="1">
+<SegmentTemplate startNumber="%d" timescale="%d" duration="%d" initialization="$RepresentationID$/init.mp4" media="$RepresentationID$/$Number$.m4s"/>
+<Representation id="%s" codecs="%s" bandwidth="48000" audioSamplingRate="%d"/></AdaptationSet>`, lang, 1+nb, mpdT, mpdDur, au.id, codec, audioT)
 	}
 	if L.stpp {
 		stppT := L.stppT
@@ -275,24 +306,24 @@ func genAsset(root string, L genLayout) error {
 			ms := d * 1000 / L.videoT
 			data := ttmlDoc(tt+ms/4, tt+ms*3/4, fmt.Sprintf("%s sub %d", L.name, i+1))
 			s := []mp4.FullSample{{Sample: mp4.Sample{Flags: mp4.SyncSampleFlags, Dur: uint32(ms * stppT / 1000), Size: uint32(len(data))}, Data: data}}
-			if err := writeSeg(filepath.Join(dir, fmt.Sprintf("T1/%d.m4s", i+1)), uint32(i+1), tTrack, uint64(tt*stppT/1000), s); err != nil {
+			if err := writeSeg(filepath.Join(dir, fmt.Sprintf("T1/%d.m4s", i+1+nb)), uint32(i+1), tTrack, uint64(tt*stppT/1000), s); err != nil {
 				return err
 			}
 			tt += ms
 		}
 		fmt.Fprintf(&asets, `<AdaptationSet contentType="text" mimeType="application/mp4" lang="en" segmentAlignment="true" startWithSAP="1">
 <Role schemeIdUri="urn:mpeg:dash:role:2011" value="subtitle"/>
-<SegmentTemplate startNumber="1" timescale="%d" duration="%d" initialization="$RepresentationID$/init.mp4" media="$RepresentationID$/$Number$.m4s"/>
-<Representation id="T1" codecs="stpp.ttml.im1t" bandwidth="1000"/></AdaptationSet>`, stppT, L.videoSegs[0]*stppT/L.videoT)
+<SegmentTemplate startNumber="%d" timescale="%d" duration="%d" initialization="$RepresentationID$/init.mp4" media="$RepresentationID$/$Number$.m4s"/>
+<Representation id="T1" codecs="stpp.ttml.im1t" bandwidth="1000"/></AdaptationSet>`, 1+nb, stppT, L.videoSegs[0]*stppT/L.videoT)
 	}
 	if L.thumbs {
 		for i := range L.videoSegs {
-			_ = os.WriteFile(filepath.Join(dir, fmt.Sprintf("thumbs/%d.jpg", i+1)), []byte(fmt.Sprintf("\xff\xd8\xff%s-thumb-%d\xff\xd9", L.name, i+1)), 0o644)
+			_ = os.WriteFile(filepath.Join(dir, fmt.Sprintf("thumbs/%d.jpg", i+1+nb)), []byte(fmt.Sprintf("\xff\xd8\xff%s-thumb-%d\xff\xd9", L.name, i+1)), 0o644)
 		}
 		fmt.Fprintf(&asets, `<AdaptationSet mimeType="image/jpeg" contentType="image">
-<SegmentTemplate media="$RepresentationID$/$Number$.jpg" timescale="%d" duration="%d" startNumber="1"/>
+<SegmentTemplate media="$RepresentationID$/$Number$.jpg" timescale="%d" duration="%d" startNumber="%d"/>
 <Representation bandwidth="10000" id="thumbs" width="160" height="90"><EssentialProperty schemeIdUri="http://dashif.org/guidelines/thumbnail_tile" value="1x1"/></Representation></AdaptationSet>`,
-			L.videoT, L.videoSegs[0])
+			L.videoT, L.videoSegs[0], 1+nb)
 	}
 	mpd := fmt.Sprintf(`<?xml version="1.0" encoding="utf-8"?>
 <MPD xmlns="urn:mpeg:dash:schema:mpd:2011" profiles="urn:mpeg:dash:profile:isoff-live:2011" minBufferTime="PT2S" type="static" mediaPresentationDuration="PT%.3fS">
